@@ -133,6 +133,12 @@ def run(ctx):
             c["kind"] = "identity"; c["cplx"] = False; c["parts"] = []
             c["v"] = L.enc(L.dec(c["v"]).real); c["grades"] = [1] * len(c["grades"])
             gone_region.append(c)
+    # mixed batches: one element exhausts its Krylov space early, the others are generic (either order), max_iters < n.
+    # Region of lanczos_batch_shared_stop: used whenever the probe says the flag is gone
+    mixed = [L.gen_mixed_batch(ctx.rng, nmax=min(nmax, 10)) for _ in range(ctx.budget(40, 240))]
+    if "lanczos_batch_shared_stop" in present:
+        avoided["batch_mixed"] = len(mixed)
+        mixed = []
     # larger operators: oracle only (sizes up to 300)
     big = []
     for _ in range(ctx.budget(12, 60)):
@@ -172,6 +178,29 @@ def run(ctx):
             mism.append(dict(oracle_fail=bool(bad), case=c, got={k: o.get(k) for k in ("ok", "err", "k", "shapes", "off", "diag")},
                              failed_clauses=bad, model_code=cd,
                              model_disagrees={3: "number of columns", 4: "values of Q/T"}.get(cd)))
+    # every element of a mixed batch against the single-start model run of that element, and against the oracle
+    elem_compared = 0
+    if mixed:
+        mobs = [L.run_impl(c) for c in mixed]
+        eterms, owner = [], []
+        for ci, (c, o) in enumerate(zip(mixed, mobs)):
+            bad = L.oracle(c, o)
+            if bad:
+                mism.append(dict(oracle_fail=True, case=c, got={k: o.get(k) for k in ("ok", "err", "k", "shapes", "off", "diag")}, failed_clauses=bad))
+            if o.get("ok"):
+                for b, t in enumerate(L.coq_elem_cases(c, o, "lanczos_alias_identity" in present)):
+                    eterms.append(t); owner.append((ci, b))
+        ecodes, eerr, _ = eval_cases("c14_elem", eterms, fn="codes_elem")
+        elem_compared = len(eterms)
+        if eerr:
+            mism.append(dict(oracle_fail=False, harness_error=eerr))
+        for j, cd in (ecodes or {}).items():
+            if cd >= 3:
+                ci, b = owner[j]
+                mism.append(dict(oracle_fail=False, case=mixed[ci], element=b, model_code=cd,
+                                 got={k: mobs[ci].get(k) for k in ("k", "shapes", "off", "diag")},
+                                 model_disagrees="batch element differs from the single-start run of the same start vector "
+                                                 + {3: "(fewer columns)", 4: "(values)"}[cd]))
     for c in gone_region + big:
         o = L.run_impl(c)
         bad = L.oracle(c, o, check_span=c["n"] <= 64)
@@ -192,7 +221,7 @@ def run(ctx):
             m = min(c["max_iters"], c["n"])
             eh["early" if o["k"] < m else "cap"] = eh.get("early" if o["k"] < m else "cap", 0) + 1
     return dict(
-        evaluations=len(cases) + len(gone_region) + len(big), distinct_nontrivial=distinct,
+        evaluations=len(cases) + len(gone_region) + len(big) + len(mixed), distinct_nontrivial=distinct,
         rule="Hermitian operators n<=%d (dense/PSD/Sum/Product/Diagonal/ScalarMul/Kronecker/Tridiagonal/matmat-defined; real and complex; gaussian, definite, indefinite, "
              "repeated and clustered spectra), starts random/few eigenvectors/exact eigenvectors/scaled, 1-D and batched, max_iters 1..n+3, ten tolerances; "
              "non-trivial = n>=3 and >=2 columns returned; distinct by hash of (operator data, start, max_iters, tol)" % nmax,
@@ -202,7 +231,7 @@ def run(ctx):
         extra=dict(compared_in_coq=len(idx) + alias_wit, alias_witness_compared=alias_wit, max_model_impl_difference=maxdiff, tolerance=1e-9, near_tie=hist.get(1, 0), noise_amplified_skipped=hist.get(2, 0), agree=hist.get(0, 0),
                    kind_histogram=kh, start_histogram=sh, max_iters_vs_n=mh, exit_histogram=eh,
                    complex_cases=sum(1 for c in cases if c["cplx"]), batched_cases=sum(1 for c in cases if c["batch"]),
-                   avoided_regions=avoided, defect_free_region_cases=len(gone_region), large_oracle_only=len(big),
+                   avoided_regions=avoided, mixed_batches_used=len(mixed), batch_elements_vs_single_start=elem_compared, defect_free_region_cases=len(gone_region), large_oracle_only=len(big),
                    impl_exceptions=sum(1 for o in obs if not o.get("ok"))))
 
 
